@@ -145,6 +145,9 @@ def run(ctx):
     p = ctx.write_cases("random-orientations", rnd)
     ctx.run_cases("random-orientations", rnd, p, execute, "Judge_VolTree", keyfn, nontrivial, per_case_timeout=300)
     lc = lattice_cases(ctx, 150 if q else 2000)
+    # a tree of a single node is a ball, at every level
+    lc += [{"kind": "lattice", "t": [[-1, 0, r]], "xyz": [[2, -1, 3]], "level": lv, "parts": [norm(Fraction(4 * r ** 3, 3))], "place": 0, "unit": (r + lv) % 3}
+           for r in (1, 2, 3) for lv in (1, 2, 3, 4, 5)]
     p = ctx.write_cases("lattice", lc)
     ctx.run_cases("lattice", lc, p, execute, "Judge_VolTree", keyfn, nontrivial)
     ctx.notes["spec_level"] = ("ASSUME in Gen_VolTree (TLC, exact rationals): for every compartment (rA, rB, L >= both) what the sweep contributes - two half balls + frustum "
